@@ -59,8 +59,21 @@ func isFuzzWorker() bool {
 	return false
 }
 
+func isFuzzCoordinator() bool {
+	if isFuzzWorker() {
+		return false
+	}
+	for _, a := range os.Args {
+		if strings.HasPrefix(a, "-test.fuzz=") || a == "-test.fuzz" {
+			return true
+		}
+	}
+	return false
+}
+
 func TestMain(m *testing.M) {
-	if mb := stats.EnvInt("VERIF_C10_ASLIMIT_MB", defaultASLimitMB); mb > 0 && !raceEnabled {
+	// (not for the native-fuzz coordinator: it maps a shared-memory window per worker and runs no input itself)
+	if mb := stats.EnvInt("VERIF_C10_ASLIMIT_MB", defaultASLimitMB); mb > 0 && !raceEnabled && !isFuzzCoordinator() {
 		lim := syscall.Rlimit{Cur: uint64(mb) << 20, Max: uint64(mb) << 20}
 		if err := syscall.Setrlimit(syscall.RLIMIT_AS, &lim); err != nil {
 			fmt.Fprintf(os.Stderr, "c10: cannot set RLIMIT_AS: %v (continuing without)\n", err)
